@@ -272,3 +272,69 @@ def generate(world, rng, thorough):
     for _ in range(1500 if thorough else 250):
         cases.append(rtree(2))
     return cases
+
+
+def abstract_from_node(world, node, problems, path="/"):
+    """Concrete ProtocolTreeNode -> abstract tree of WireFormat.tla (strings classified against the REFERENCE dictionary).
+    Values the format cannot carry (non-str attributes, None, empty strings, non-Latin-1, non-bytes data) are reported in `problems`."""
+    p1 = {w: i for i, w in enumerate(world.primary) if i >= 3}
+    p2 = {w: i for i, w in enumerate(world.secondary)}
+
+    def S_(s, where):
+        if type(s) is not str:
+            problems.append("%s: %s is %s %r, not str" % (path + getattr(node, "tag", "?"), where, type(s).__name__, s))
+            return None
+        if s == "" or s in ("xmlstreamstart", "xmlstreamend"):
+            problems.append("%s: %s is %r which the format cannot carry" % (path + node.tag, where, s))
+            return None
+        try:
+            s.encode("latin-1")
+        except UnicodeEncodeError:
+            problems.append("%s: %s %r is outside the byte range" % (path + node.tag, where, s[:30]))
+            return None
+        if s in p1:
+            return world.tok1(p1[s])
+        if s in p2:
+            return world.tok2(p2[s])
+        at = s.find("@")
+        if at >= 1:
+            if at == len(s) - 1:
+                problems.append("%s: %s %r ends in '@'" % (path + node.tag, where, s))
+                return None
+            u, sv = S_(s[:at], where), S_(s[at + 1:], where)
+            return None if u is None or sv is None else world.jid(u, sv)
+        cls = "nib" if all(ch in NIB for ch in s) else ("hex" if all(ch in HEX for ch in s) else "raw")
+        world.n += 1
+        ref = "x%d_%d" % (world.n, len(s))
+        world.content[ref] = s
+        return S(cls, 0, ref, len(s))
+    tag = S_(node.tag, "tag")
+    attrs = []
+    for k, v in node.attributes.items():
+        ak, av = S_(k, "attribute name"), S_(v, "attribute %s" % k)
+        if ak is None or av is None:
+            return None
+        attrs.append((ak, av))
+    if tag is None:
+        return None
+    kids = None
+    data = None
+    if node.data is not None:
+        if type(node.data) is not bytes:
+            problems.append("%s: data is %s, not bytes" % (path + node.tag, type(node.data).__name__))
+            return None
+        if node.children:
+            problems.append("%s: both data and children" % (path + node.tag))
+            return None
+        world.n += 1
+        ref = "d%d_%d" % (world.n, len(node.data))
+        world.content[ref] = node.data
+        data = S("raw", 0, ref, len(node.data))
+    elif node.children:
+        kids = []
+        for c in node.children:
+            k = abstract_from_node(world, c, problems, path + node.tag + "/")
+            if k is None:
+                return None
+            kids.append(k)
+    return T(tag, attrs, bin=data, kids=kids)
